@@ -127,7 +127,20 @@ def escape_set_for_untagged(ctx, crate):
             tagchar = True
         if True in empties and False not in empties:
             chars_empty |= set(eqs)
+    W = _wrapsep(crate)
+    if W.ok:
+        # decided per (tag, character) world: the spelling of the conditions does not matter
+        return W.untagged_escapes(), W.tag_escaped()
     return chars_empty, tagchar
+
+
+def _wrapsep(crate):
+    from ..wrapsep import WrapSep
+    W = crate.__dict__.get("_wrapsep")
+    if W is None:
+        W = WrapSep(crate)
+        crate.__dict__["_wrapsep"] = W
+    return W
 
 
 def renderer_rule(ctx, crate):
@@ -180,6 +193,24 @@ def renderer_rule(ctx, crate):
                 if wrap_chars is not None:
                     untagged_escapes |= wrap_chars
                 tagged_ok = bool(tagchar)
+    # the functional spelling: tokens.iter().map(|(sep, token)| if sep.is_empty() { token.clone() } else
+    # { wrap_sep_string(sep, token) }).collect::<Vec<_>>().join(" ") - the closure returns the rendered word
+    for fb in crate.closures_of(tl.path):
+        rets = [strip_sites(fb.def_expr(bi, si)) for bi, si in fb.defs.get(0, [])]
+        for bb, t, c in fb.calls():
+            if last_seg(c) != "wrap_sep_string":
+                continue
+            res = strip_sites(fb.call_expr(bb))
+            if not any(flow.backward(fb, r, lambda z: strip_sites(z) == res) is not None for r in rets):
+                continue
+            facts = dom_facts(fb, bb)
+            empt = [v for at, v in facts if at[0] == "call" and last_seg(at[1]) == "is_empty"]
+            if empt == [False]:
+                tagged_ok = bool(tagchar)
+            elif not empt:
+                if wrap_chars is not None:
+                    untagged_escapes |= wrap_chars
+                tagged_ok = bool(tagchar)
     ctx.ob("R16-2", tl.path, "tagged tokens are rendered through wrap_sep_string(tag, text), which escapes the tag character",
            tagged_ok, key="R16-2|%s|tagged" % tl.path, crate=crate.kind)
     for ch, why in S.items():
@@ -210,6 +241,9 @@ def escapes_under_tag(crate):
                 if a[0] == "call" and last_seg(a[1]) == "eq" and v is True and \
                         any(s_[0] == "call" and last_seg(s_[1]) == "to_string" for s_ in mir.subexprs(a)):
                     tagchar = True
+    W = _wrapsep(crate)
+    if W.ok:
+        return W.tag_escaped(), W.tagged_extra("\"")
     return tagchar, extra
 
 
@@ -220,6 +254,10 @@ def tag_escape_guards(crate):
     if w is None:
         return None
     found = None
+    W = _wrapsep(crate)
+    if W.ok and W.tag_escaped():
+        return (W.bs[0], [] if W.tag_always_escaped() else
+                ["under some further condition the tag character reaches the output without a backslash"])
     for bb, t, c in w.calls():
         if last_seg(c) == "push" and "String" in c and len(w.call_args(bb)) == 2 and const_char(w.call_args(bb)[1]) == "\\":
             facts = dom_facts(w, bb)
